@@ -103,13 +103,17 @@ class C08:
             "distinct by (creator, variant kinds present, layout, options)")
     required = ("variants_compared", "enum_nonsorted_variants", "spelling_variants", "relocated_variants",
                 "tracker_variants", "clock_variants", "dot_ending_variants")
-    assumptions = ("payload names valid UTF-8", "no symlinks, except dangling ones in 5 % of the directory cases, where "
+    assumptions = ("payload names valid UTF-8", "no symlinks, except dangling ones in 5 % and directory aliases (a link to a sibling directory) in 6 % of the directory cases, where "
                    "only the consistency of the outcome (refused by every variant, or the same info everywhere) is judged")
 
     @staticmethod
     def gen(rng, tier, i):
         exp = rng.choice([14, 14, 15, 16])
         tree = gen.gen_tree(rng, 2 ** exp, tier, maxp=3)
+        if rng.random() < 0.06:
+            # a directory symbolic link that is a second name for a directory of the payload (no cycle): whatever the
+            # tool makes of it, the outcome may not depend on spelling, location or enumeration order
+            gen.add_dir_alias(rng, tree)
         o = {}
         if rng.random() < 0.4:
             o["private"] = True
@@ -301,6 +305,8 @@ class C08:
             viol.append(oracles.V("file-differs-between-interpreters", hash_seeds=sorted(hs_files.values())[:4],
                                   distinct_files=len(hs_files)))
         counters["dot_ending_variants"] = dotend
+        if any(len(l) > 2 for l in tree.get("links", ())):
+            counters["cases_with_directory_alias_link"] = 1
         counters["variants_compared"] = compared
         multi_entry = len(tree["files"]) >= 2
         kinds = sorted({v["kind"] for v in variants})
